@@ -101,3 +101,12 @@ func init() {
 		"E2 members stage registered for C03: LeaderUpdated events of all hosts during membership changes, leader isolation and transfer ((shard, term) -> single leader)",
 	}, members)
 }
+
+func init() {
+	addStages("C08", "exploration", []string{
+		"E4 chunks stage registered for C08 (a snapshot sent to a lagging follower must be durably recoverable once it is handed to the node): power loss after each receiver script, see C16",
+	}, Stage{Engine: "snapcheck", Mode: "chunks", BatchesQ: 16, BatchesT: 32, Par: 16, TimeoutQ: 600, TimeoutT: 3600})
+	addStages("C16", "fault_enumeration", []string{
+		"E4 chunks stage registered for C16 ('received' clause): the real receiver (transport.Chunk) runs on a strict in-memory file system; after each script the power is lost: every snapshot that had been finalized and announced to the node must still be there byte for byte (directory, flag file, main and external files)",
+	}, Stage{Engine: "snapcheck", Mode: "chunks", BatchesQ: 16, BatchesT: 32, Par: 16, TimeoutQ: 600, TimeoutT: 3600})
+}
